@@ -3,6 +3,7 @@ package owa
 import (
 	"github.com/Azbesciak/RealDecisionMaker/lib/model"
 	"github.com/Azbesciak/RealDecisionMaker/lib/utils"
+	"sort"
 )
 
 type OwaBiasListener struct {
@@ -14,7 +15,21 @@ func (h *OwaBiasListener) Identifier() string {
 
 func (h *OwaBiasListener) Merge(params model.MethodParameters, addition model.MethodParameters) model.MethodParameters {
 	oldParams := params.(owaParams)
-	newParams := addition.(owaParams)
+	newParams, ok := addition.(owaParams)
+	if !ok {
+		// OnCriterionAdded reports the new criterion as a plain weights map
+		added := addition.(model.WeightType)
+		weights := make(model.WeightedCriteria, 0, len(added.Weights))
+		ids := make([]string, 0, len(added.Weights))
+		for id := range added.Weights {
+			ids = append(ids, id)
+		}
+		sort.Strings(ids)
+		for _, id := range ids {
+			weights = append(weights, model.WeightedCriterion{Criterion: model.Criterion{Id: id, Type: model.Gain}, Weight: added.Weights[id]})
+		}
+		newParams = owaParams{Weights: &weights}
+	}
 	return *oldParams.merge(&newParams)
 }
 
